@@ -1,26 +1,26 @@
 import json
 props=[json.loads(l) for l in open('/verif/properties.jsonl')]
 notes={
- 'C01':("theorems on Plugin.run (response shape, roots = selected types that build); 'type-checks and compiles' is NOT a theorem: every generated file of the corpus is compiled with protoc-gen-gogo's output on each run (partial)", "Rocq theorems on the response model + go build of every corpus program + go/ast declaration check"),
- 'C02':("locality theorems for both converters (one field <-> one attribute), schema/value types follow the documented table (class tf_ok); names/types also checked against an independent oracle derived from the descriptor, single-field probes on the implementation", "Rocq theorems (locality, typing) + model/implementation correspondence + independent naming oracle"),
+ 'C01':("theorems on Plugin.run (response shape, roots = selected types that build) and on the package-clause rewrite (exactly the first `package x` line changes); 'type-checks and compiles' is NOT a theorem: every generated file of the corpus is compiled with protoc-gen-gogo's output on each run (partial)", "Rocq theorems on the response model and the text layer + hook probe of replacePackageName + go build of every corpus program + go/ast declaration check"),
+ 'C02':("locality theorems for both converters (one field <-> one attribute), schema/value types follow the documented table (class tf_ok), front-end name rule (override, JSON tag, snake case) and promotion of embedded messages proved on the builder; names/types also checked against an independent oracle, dynamically and statically on the generated text; naming functions probed on random strings", "Rocq theorems (locality, typing, naming) + model/implementation correspondence + independent naming oracle"),
  'C03':("proved for all kinds except custom types and nullable embedded messages (tf_ok): total, no diagnostics, schema-conformant at every depth, nothing unknown; 'nothing unknown' proved for every message", "Rocq theorems by induction over the IR + correspondence + oracle incl. real ToTerraformValue"),
- 'C04':("round trip proved per scalar value and per scalar field (incl. pointer-backed); the message-level composition is exercised by correspondence and oracle on thousands of values (partial)", "Rocq theorems (field level) + correspondence + round-trip oracle in normal form"),
- 'C05':("reset, payload- and prior-independence proved per field; untouched fields and oneof reset proved at message level", "Rocq theorems + correspondence + oracle over conforming objects with payload under null/unknown"),
- 'C06':("CopyFrom proved total on every object (class flat_ok: no nullable embedded message); diagnostics form a set; CopyTo missing-type diagnostic proved per field; exact diagnostic sets checked by the oracle", "Rocq theorems (totality over arbitrary tfval trees) + correspondence + malformed-input oracle"),
- 'C07':("CopyFrom: none/one-branch theorems at message level; CopyTo exclusivity through conformance (tf_ok) and the oracle at every depth", "Rocq theorems + correspondence + oracle over every (active branch, prior holder) pair"),
- 'C08':("per-attribute facts proved (no unknown left, scalar fixpoint, null decodes to zero); the whole-plan echo is decided by the oracle on admissible plans (partial)", "Rocq theorems (attribute level) + correspondence + echo oracle"),
- 'C09':("lists follow the source's length, maps its key set, nil sources leave nothing stale, scalar idempotence, nothing unknown: proved per field for every prior attribute state; histories exercised by the oracle", "Rocq theorems + correspondence + history oracle"),
- 'C10':("schema flags/metadata = IR flags (definitional lemmas), injected attributes never touched by CopyTo (theorem), placeholder always null; flags vs configuration checked against the independent oracle", "Rocq theorems + schema walk against independent oracle"),
- 'C11':("excluded field contributes no IR field (theorem), hence nothing emitted/written (locality theorems); both key forms and 'nothing else changes' decided by schema/converter comparison against the documented expectation on option variants", "Rocq theorems + with/without option families"),
+ 'C04':("whole-message round trip proved (CopyTo into the empty object then CopyFrom into the zero struct gives the value back up to the normal form, no diagnostics, every depth) for the class rt_ok: every kind except custom types and fields promoted from nullable embedded messages; those are decided by the oracle (partial)", "Rocq theorem by mutual induction over the IR + correspondence + round-trip oracle in normal form"),
+ 'C05':("message level: the result of CopyFrom is independent of the prior target and an all-null/unknown object yields the zero message (class without custom/promoted top-level fields); reset, payload- and prior-independence per field for every field", "Rocq theorems + correspondence + oracle over conforming objects with payload under null/unknown"),
+ 'C06':("CopyFrom proved total on every object (class flat_ok); CopyTo proved never to panic on any object target except a non-object element type (outside the quantifier), missing type => exactly WriteMissing for every kind of field; diagnostics form a set; exact diagnostic sets checked by the oracle", "Rocq theorems (totality over arbitrary tfval trees, both directions) + correspondence + malformed-input oracle"),
+ 'C07':("CopyFrom: none/one-branch theorems at message level; CopyTo: inactive scalar and message branches rendered null, active one with its value (per field), conformance (tf_ok); every pair of branches by the oracle", "Rocq theorems + correspondence + oracle over every (active branch, prior holder) pair"),
+ 'C08':("per-attribute echo proved (known scalar / pointer scalar reproduced exactly, unknown becomes known null, nothing unknown left); the whole-plan statement is decided by the oracle on admissible plans (partial)", "Rocq theorems (attribute level) + correspondence + echo oracle"),
+ 'C09':("message level: in-place copy into an earlier result or any well-formed earlier object never fails, collections hold exactly the fresh elements, payloads are fresh wherever non-null, null flags fresh or earlier, nothing unknown; idempotence as equality; the stronger 'in-place = fresh' is refuted (sticky null flags, as the property's wording anticipates) (class tf_ok)", "Rocq theorems by mutual induction + correspondence + history oracle"),
+ 'C10':("schema flags/metadata = IR flags, front end sets them from the configuration (flags, validators, plan modifiers, UseStateForUnknown default, one-line description), injected attributes never touched by CopyTo, placeholder exactly for messages without fields and always null; flags vs configuration checked against the independent oracle", "Rocq theorems + schema walk against independent oracle"),
+ 'C11':("excluded field contributes no IR field (theorem), hence nothing emitted/written (locality theorems); a flag holds iff the message-qualified name or the path is listed, path entry before type-name entry (theorems); 'nothing else changes' decided by schema/converter comparison on option variants", "Rocq theorems + with/without option families"),
  'C12':("roots = selected messages that build; IR of a selected type independent of the other selected types (theorems); byte identity of function texts checked on the implementation", "Rocq theorems + function-text comparison across selections"),
- 'C13':("IR (hence schema and converters) independent of the package options (theorem); 'compiles there' and equal behaviour decided by go build and differential execution of the two-package layout (partial)", "Rocq theorem + go build + differential execution of same/separate package variants"),
+ 'C13':("IR (hence schema and converters) independent of the package options (theorem); qualification of Go type strings proved (unqualified without default package, builtins never, others once with the alias of the overridden path, alias is an identifier); 'compiles there' and equal behaviour decided by go build and differential execution of the two-package layout (partial)", "Rocq theorems + hook probe of Imports + go build + differential execution of same/separate package variants"),
  'C14':("configuration reaches the front end only through lookups; permutation invariance proved (uses functional_extensionality); run-to-run determinism decided by repeated runs of the real plugin (partial)", "Rocq theorem + repeated plugin runs + permuted configurations"),
  'C15':("with sort the IR fields of a message are invariant under permutation of its declared fields (theorem); without sort the fields are a permutation (theorem); byte identity / behaviour equality checked on permuted descriptors", "Rocq theorems + permuted-descriptor families"),
  'C16':("channel equivalence for all nine dual options, precedence, + separator, failure without types or with unreadable/malformed file: theorems on read_config (the YAML parser itself is not modelled)", "Rocq theorems on the configuration reader + channel families on the implementation"),
  'C17':("delegation equations for the three hooks and the default suffix: theorems with the hooks as parameters; call contract checked by instrumented hooks", "Rocq theorems (hooks as section variables) + instrumented hooks"),
  'C18':("a message with an unmappable declared field does not build; errors propagate from nested messages; exclusion restores (theorems)", "Rocq theorems + unmappable-field families"),
  'C19':("all integer kinds over their whole range, float32 widen/narrow exact (via Flocq), bytes, time, bool, string: theorems; through the generated code of one field: theorem", "Rocq theorems (Flocq for float32) + boundary-value oracle"),
- 'C20':("null-ness of scalar attributes on the empty target proved at message level (tf_ok), pointer-backed and placeholder per field; collections/messages by the oracle", "Rocq theorems + null-ness oracle at every depth"),
+ 'C20':("null-ness on the empty target: scalars at message level (tf_ok), pointers, placeholder, lists, maps, nullable and by-value messages, inactive oneof branches per field; every depth by the oracle", "Rocq theorems + null-ness oracle at every depth"),
 }
 checks=[]
 for p in props:
@@ -34,7 +34,7 @@ for p in props:
       "replay_cmd_template": "./check %s --replay {path}" % pid,
       "engine": "rocq+correspondence",
       "level_claimed": {"category": "proof", "text": text, "design_ref": "DESIGN.md section 7 (%s), section 13" % pid},
-      "level_note": "Trusted: Coq 8.16.1 kernel; no axioms declared; C19 float32 (and theorems built on it) inherit the standard-library axioms sig_forall_dec, sig_not_dec, functional_extensionality_dep, classic through Flocq; C14/C11 use functional_extensionality_dep. The model is hand written and tied to /repo by replaying every driver case with the extracted model (ExtrOcamlBasic only) on each run; harness, reflective driver, independent oracle and OCaml model runner are trusted. See DESIGN.md section 9.",
+      "level_note": "Trusted: Coq 8.16.1 kernel; no axioms declared; float32 theorems (C19, and C04/C08/C20 theorems built on them; AXIOMS.md lists each) inherit the standard-library axioms sig_forall_dec, sig_not_dec, functional_extensionality_dep, classic through Flocq; C14/C11 use functional_extensionality_dep. The model is hand written and tied to /repo by replaying every driver case and every text-probe request (hook verif_probe.go, build tag verif) with the extracted model (ExtrOcamlBasic only) on each run; harness, reflective driver, independent oracle and OCaml model runner are trusted. See DESIGN.md section 9.",
       "technique": tech})
 m={"version":1,
    "setup_cmd":"./setup.sh",
